@@ -5,6 +5,7 @@ use std::path::Path;
 use crate::driver::{CheckResult, Failure, Known, Report, Tier};
 
 pub mod dagprops;
+pub mod build;
 
 pub const ALL: &[&str] = &["C10", "C11"];
 
@@ -12,6 +13,7 @@ pub const ALL: &[&str] = &["C10", "C11"];
 pub fn run(prop: &str, tier: Tier, seed: u64) -> i32 {
   match prop {
     "C10" | "C11" => dagprops::run(prop, tier, seed),
+    p if build::spec_of(p).is_some() => build::run(prop, tier, seed),
     _ => { eprintln!("unknown property {}", prop); 2 }
   }
 }
@@ -21,6 +23,7 @@ pub fn replay(path: &Path) -> Result<CheckResult, String> {
   let (prop, label) = crate::driver::replay_label(path).ok_or_else(|| format!("{}: not a replay file", path.display()))?;
   match prop.as_str() {
     "C10" | "C11" => dagprops::replay(&prop, &label, path),
+    p if build::spec_of(p).is_some() => build::replay(&prop, &label, path),
     _ => Err(format!("unknown property {}", prop)),
   }
 }
